@@ -88,12 +88,17 @@ def cases(tier, rng, dist):
         yield {"f": "biv", "x": [str(v) for v in x], "g1": g1, "g2": g2, "reps": rng.randint(1, 5), "plus1": rng.random() < 0.5, "keep": rng.random() < 0.5,
                "mode": mode(), "aseed": rng.randint(0, 10**9)}
     for _ in range(N // 2):
-        # sim_corr: x values 4^i identify the arrangement through the statistic; strata of size >= 3 so correlations are defined
+        # sim_corr: x values 4^i identify the arrangement through the statistic; strata of size >= 2 (a pair has
+        # correlation +-1, defined as long as its two y values differ)
         ns = rng.randint(1, 3)
-        g = [k for k in range(ns) for _ in range(rng.randint(3, 4))]
+        g = [k for k in range(ns) for _ in range(rng.randint(2, 4))]
         rng.shuffle(g)
         x = [Fraction(4) ** i for i in range(len(g))]; rng.shuffle(x)
         y = [Fraction(rng.randint(-3, 3)) for _ in g]
+        for k in range(ns):
+            idx = [i for i, gi in enumerate(g) if gi == k]
+            if len(idx) == 2 and y[idx[0]] == y[idx[1]]:
+                y[idx[1]] += 1
         yield {"f": "simcorr", "x": [str(v) for v in x], "y": [str(v) for v in y], "g": g, "alt": rng.choice(ALTS), "reps": rng.randint(1, 4), "plus1": rng.random() < 0.5,
                "mode": mode(), "aseed": rng.randint(0, 10**9)}
     for _ in range(N // 2):
@@ -112,7 +117,7 @@ def cases(tier, rng, dist):
         if rng.random() < 0.2:
             resp[rng.randrange(len(resp))] = float("nan")
         yield {"f": "named", "fn": rng.choice(["spt", "s2s_mean", "s2s_t", "s2s_mws", "sim_corr", "biv", "ts"]), "g": g, "c": c, "resp": resp,
-               "alt": rng.choice(ALTS), "reps": rng.randint(1, 10), "plus1": rng.random() < 0.5, "seed": rng.randint(0, 10**6), "gseed": rng.randint(0, 10**6)}
+               "alt": rng.choice(ALTS), "reps": rng.randint(1, 10), "plus1": rng.random() < 0.5, "seed": real_seed(rng), "gseed": rng.randint(0, 10**6)}
 
 
 def to_arr(vals, dtype):
@@ -242,6 +247,18 @@ def doc_stat(fn, g, cond, u):
     raise KeyError(fn)
 
 
+def doc_corr(x, y, g):
+    """documented statistic of sim_corr, written independently of the library: sum over groups of Pearson correlations"""
+    x = np.asarray(x, dtype=float); y = np.asarray(y, dtype=float); g = np.asarray(g)
+    tot = 0.0
+    for k in sorted(set(g.tolist())):
+        a = x[g == k]; b = y[g == k]
+        da = a - a.mean(); db = b - b.mean()
+        den = math.sqrt(float((da * da).sum()) * float((db * db).sum()))
+        tot += float((da * db).sum()) / den if den > 0 else float("nan")
+    return tot
+
+
 def run_named_tape(c):
     """stratified_two_sample with a named statistic on a scripted tape: arrangements predicted by the mirror"""
     g = np.array(c["g"]); cond = np.array(c["c"]); resp = np.array(c["resp"], dtype=float)
@@ -277,7 +294,7 @@ def run_named(c):
         out[tag] = {"r": ["ok", float(p), float(tst), [float(v) for v in d]], "global_same": g0 == g1}
     one("int1", lambda: c["seed"], c["gseed"]); one("int2", lambda: c["seed"], c["gseed"] + 1)
     one("sha", lambda: SHA256(c["seed"]), c["gseed"] + 2)
-    one("rs1", lambda: np.random.RandomState(c["seed"]), c["gseed"] + 3); one("rs2", lambda: np.random.RandomState(c["seed"]), c["gseed"] + 4)
+    one("rs1", lambda: np.random.RandomState(c["seed"] % 2**32), c["gseed"] + 3); one("rs2", lambda: np.random.RandomState(c["seed"] % 2**32), c["gseed"] + 4)
     if c["fn"] == "ts":
         r = guarded(lambda: named_call(c, c["seed"], keep=False))
         out["nokeep"] = {"r": ["ok", float(r[1][0]), float(r[1][1]), []] if r[0] == "ok" else list(r)}
@@ -471,9 +488,12 @@ def oracle(c, o):
         if not all(math.isfinite(v) for v in d + [tst]): return None
         x = [float(F(v)) for v in c["x"]]; y = np.array([float(F(v)) for v in c["y"]]); g = np.array(c["g"])
         ans = [a for (_, a) in o["log"]]
+        e0 = doc_corr(x, y, g)
+        if math.isfinite(e0) and abs(e0 - tst) > 1e-9 * (1 + abs(e0)):
+            return {"why": f"sim_corr: observed statistic {tst} is not the sum over groups of the Pearson correlations of the data as given ({e0}); groups {c['g']}", "cls": "sim_corr:observed-stat"}
         for k in range(c["reps"]):
             xp = np.array(m_pwg(x, c["g"], ans))
-            e = float(stratified.corrcoef(xp, y, g))
+            e = doc_corr(xp, y, g)
             if math.isfinite(e) and abs(e - d[k]) > 1e-9 * (1 + abs(e)):
                 return {"why": f"sim_corr: repetition {k} has statistic {d[k]} but the within-group re-pairing selected by the draws gives {e}", "cls": "sim_corr:wrong-rearrangement"}
         return tail_check("sim_corr", c["alt"], p, tst, d, c["plus1"])
